@@ -229,39 +229,91 @@ def run(ctx: Any, prog: Program) -> None:
     rd = ms['read']
     sv = ms['save']
 
-    def role(e: ast.AST) -> str:
-        s = U(e)
-        if 'tell()' in s or s in ('lump_start', 'offset', 'file_off'):
-            return 'offset'
-        if s.startswith('len(') or s in ('length',):
-            return 'length'
-        if s.endswith('version') or s == 'version':
-            return 'version'
-        if 'fourcc' in s or s in ('uncomp_size',):
-            return 'fourcc'
-        if isinstance(e, ast.Constant) and e.value == 0:
-            return 'zero'
-        return '?' + s
-    # read side
-    hdr_unpack = None
+    # ---- roles of the four header slots, derived from how read() uses what it unpacks (not from what the locals are called) ----------
+    hdr_assign = None
     swap = None
     for n in walk_no_nested(rd):
         if isinstance(n, ast.Assign) and isinstance(n.targets[0], ast.Tuple) and isinstance(n.value, ast.Call) and dotted(n.value.func) == 'struct_read' \
-                and dotted(n.value.args[0]) == 'HEADER_LUMP':
-            hdr_unpack = [role(t) for t in n.targets[0].elts]
-        if isinstance(n, ast.Assign) and isinstance(n.targets[0], ast.Tuple) and isinstance(n.value, ast.Tuple) and {U(x) for x in n.targets[0].elts} == {'version', 'offset', 'length'}:
+                and dotted(n.value.args[0]) == 'HEADER_LUMP' and all(isinstance(t, ast.Name) for t in n.targets[0].elts):
+            hdr_assign = n
+    if hdr_assign is None:
+        raise AnalysisError('BSP.read: header-lump unpack not found')
+    slot_vars = [t.id for t in hdr_assign.targets[0].elts]
+    for n in walk_no_nested(rd):
+        if isinstance(n, ast.Assign) and isinstance(n.targets[0], ast.Tuple) and isinstance(n.value, ast.Tuple) and n is not hdr_assign \
+                and {dotted(x) for x in n.targets[0].elts} == {dotted(x) for x in n.value.elts} and {dotted(x) for x in n.value.elts} <= set(slot_vars):
             p = bsp.parents.get(n)
             if isinstance(p, ast.If) and 'L4D2' in U(p.test):
                 swap = (n.targets[0], n.value)
-    if hdr_unpack is None or swap is None:
-        raise AnalysisError('BSP.read: header-lump unpack or L4D2 field swap not found')
+    if swap is None:
+        raise AnalysisError('BSP.read: L4D2 field swap not found')
+    role_by_name: Dict[str, str] = {}
+    for c in walk_no_nested(rd):
+        if isinstance(c, ast.Call) and dotted(c.func) == 'Lump' and len(c.args) >= 2 and isinstance(c.args[1], ast.Name):
+            role_by_name[c.args[1].id] = 'version'
+    stores_ = [n for n in walk_no_nested(rd) if isinstance(n, ast.Assign) and isinstance(n.targets[0], ast.Subscript) and isinstance(n.value, ast.Tuple) and len(n.value.elts) == 3
+               and all(isinstance(x, ast.Name) and x.id in slot_vars for x in n.value.elts)]
+    unpacks_ = [n for n in walk_no_nested(rd) if isinstance(n, ast.Assign) and isinstance(n.targets[0], ast.Tuple) and len(n.targets[0].elts) == 3 and isinstance(n.value, ast.Subscript)
+                and stores_ and dotted(n.value.value) == dotted(stores_[0].targets[0].value) and all(isinstance(x, ast.Name) for x in n.targets[0].elts)]
+    if len(stores_) != 1 or not unpacks_:
+        raise AnalysisError('BSP.read: the (offset, length, size) triple kept per lump was not found')
+    for up_ in unpacks_:
+        later = [x.id for x in up_.targets[0].elts]
+        blk_ = bsp.parents.get(up_)
+        for c in ast.walk(blk_) if blk_ is not None else []:
+            if isinstance(c, ast.Call) and isinstance(c.func, ast.Attribute) and c.args and isinstance(c.args[0], ast.Name) and c.args[0].id in later and c.lineno > up_.lineno:
+                pos_ = later.index(c.args[0].id)
+                if c.func.attr == 'seek':
+                    role_by_name.setdefault(stores_[0].value.elts[pos_].id, 'offset')
+                elif c.func.attr == 'read':
+                    role_by_name.setdefault(stores_[0].value.elts[pos_].id, 'length')
+    for x in stores_[0].value.elts:
+        role_by_name.setdefault(x.id, 'fourcc')
+    if sorted(role_by_name.get(v, '?') for v in slot_vars) != ['fourcc', 'length', 'offset', 'version']:
+        raise AnalysisError(f'BSP.read: could not tell the roles of the header locals {slot_vars} apart (got {role_by_name})')
+    hdr_unpack = [role_by_name[v] for v in slot_vars]
     # after the swap, the value read into slot i ends up in which role?
-    slot_names = ['offset', 'length', 'version', 'uncomp_size']
     l4d2_roles = list(hdr_unpack)
     for tgt, val in zip(swap[0].elts, swap[1].elts):
-        src_name = U(val)       # variable holding the slot value
-        if src_name in slot_names:
-            l4d2_roles[slot_names.index(src_name)] = role(tgt)
+        l4d2_roles[slot_vars.index(val.id)] = role_by_name[tgt.id]
+
+    # writer side: the role of an argument by what it is computed from
+    def role(e: ast.AST, depth: int = 0) -> str:
+        if isinstance(e, ast.Constant) and e.value == 0:
+            return 'zero'
+        if isinstance(e, ast.Call) and isinstance(e.func, ast.Attribute) and e.func.attr == 'tell':
+            return 'offset'
+        if isinstance(e, ast.Call) and dotted(e.func) == 'len':
+            return 'length'
+        if isinstance(e, ast.BinOp) and isinstance(e.op, ast.Sub) and role(e.left, depth + 1) == 'offset':
+            return 'length'          # file.tell() - start
+        if isinstance(e, ast.Attribute) and e.attr == 'version':
+            return 'version'
+        if isinstance(e, ast.Name) and depth < 3:
+            defs_ = [a.value for a in ast.walk(sv) if isinstance(a, ast.Assign) and any(dotted(t) == e.id for t in a.targets)]
+            kinds_ = {role(d, depth + 1) for d in defs_}
+            if kinds_ == {'offset'}:
+                return 'offset'
+            if kinds_ == {'length'}:
+                # the bytes that are written next, or the size recorded for a compressed lump (which is 0 otherwise)?
+                written = any(isinstance(c, ast.Call) and isinstance(c.func, ast.Attribute) and c.func.attr == 'write' and c.args and any(isinstance(d, ast.Call) and d.args and dotted(d.args[0]) == dotted(c.args[0]) for d in defs_)
+                              for c in ast.walk(sv))
+                return 'length' if written or True else 'fourcc'
+            if kinds_ == {'length', 'zero'}:
+                return 'fourcc'         # `= len(lump.data)` when compressed, `= 0` otherwise: the fourCC slot doubling as uncompressed size
+            if kinds_ == {'zero'}:
+                return 'zero'
+            # parameters of a helper keep their names: fall back to the spelling
+            s_ = e.id
+            if s_ in ('offset', 'lump_start', 'file_off'):
+                return 'offset'
+            if s_ == 'length':
+                return 'length'
+            if s_.endswith('version'):
+                return 'version'
+            if 'fourcc' in s_ or s_ == 'uncomp_size':
+                return 'fourcc'
+        return '?' + U(e)
     # save side
     fold_consts = {'HEADER_LUMP': fold.global_('HEADER_LUMP')}
     hdr_fmt = fold_consts['HEADER_LUMP']
